@@ -175,9 +175,24 @@ def spec_cases(draw):
     return {"src": {"spec": c["spec"]}, "a": a, "b": b, "read_kw": {"mnemonic_case": c["mnemonic_case"]}}
 
 
+def wide_cases(tier):
+    """Many curves (rows far longer than 256 characters, curve counts that are multiples of the fields per 79-character line):
+    version 1.2 against 2.0, unwrapped against wrapped."""
+    counts = [24, 28, 35] if tier == "quick" else [7, 14, 21, 23, 24, 25, 28, 35, 36, 40]
+    for c in counts:
+        for r in (2, 5):
+            curves = [["C%d" % j, "", "", "", [repr(100.0 + i * 0.5 + j * 10) for i in range(r)]] for j in range(c)]
+            desc = dict(version=[], well=[], params=[], curves=curves, other="", strt_unit="m", null=["f", "-9999.25"])
+            for a, b in (({"version": 1.2, "wrap": False}, {"version": 2, "wrap": False}),
+                         ({"version": 1.2, "wrap": False}, {"version": 1.2, "wrap": True}),
+                         ({"version": 2, "wrap": True, "data_width": 120}, {"version": 1.2, "wrap": False, "len_numeric_field": 14})):
+                yield {"src": {"desc": desc}, "a": a, "b": b, "read_kw": {}}
+
+
 def parts(tier):
     return [
         Enum("example-corpus", corpus_cases),
+        Enum("wide-files", wide_cases),
         Hyp("generated-lasfiles", desc_cases, quick=3000, thorough=50000),
         Hyp("generated-texts", spec_cases, quick=1500, thorough=20000),
     ]
